@@ -398,7 +398,8 @@ func genPomDocs(thorough bool) []*pomDoc {
 					for _, pf := range pfs {
 						add("parents", pomOpt{Parent: par, ParentProp: pp, Deps: d, PropKind: pk, Profile: pf}, subB, rotB)
 						if thorough {
-							add("parents", pomOpt{Parent: par, ParentProp: pp, Deps: d, Mgmt: true, PropKind: pk, PropInMgmt: pk > 0, Shared: pk > 0, Profile: pf, Plugin: true}, subB, rotB)
+							// the feature-rich child has ~20 requirements with its parents: update sets of size <= 2
+							add("parents", pomOpt{Parent: par, ParentProp: pp, Deps: d, Mgmt: true, PropKind: pk, PropInMgmt: pk > 0, Shared: pk > 0, Profile: pf, Plugin: true}, 2, rotB)
 						}
 					}
 				}
@@ -414,7 +415,7 @@ func genPomDocs(thorough bool) []*pomDoc {
 	if thorough {
 		bases = nil
 		for _, d := range docs {
-			if d.Family == "child" || (d.Opt.Parent == 2 && !d.Opt.ParentProp) {
+			if (d.Family == "child" && !d.Opt.PropInMgmt && !d.Opt.Shared) || (d.Opt.Parent == 2 && !d.Opt.ParentProp && d.Opt.Profile <= 1 && !d.Opt.Plugin) {
 				bases = append(bases, d.Opt)
 			}
 		}
